@@ -14,8 +14,10 @@
      (c) ANNOTATION OBJECTS shared between classes: a `Pattern(...)` object used as
          `Annotated[date|datetime|time, P]` at several positions; its mutable attribute `cls` is
          re-targeted by every parser set up with it (parsers.py PatternedDTParser.__post_init__)
-         and read again when a ParseError is built (PatternedDTParser.__call__) — faithful to the
-         open finding F73 (the error names the type of the position set up LAST).
+         and read again when a ParseError is built (PatternedDTParser.__call__).  Since fix commit 38c6a1a every
+         parser works on its OWN copy of the pattern (finding F73 repaired): the machine parameter `shared_pat`
+         is false for the library; `shared_pat = true` is the pre-fix variant, in which the error names the type
+         of the position set up LAST.
    Operations: define a class / load a document (ordered key -> typed value pairs, several spellings
    of one field allowed) / dump an instance.  Leaf conversions that are not spelled out here and the
    stdlib parsers are Section variables.  No proofs in this file. *)
@@ -198,6 +200,9 @@ Fixpoint first_present (ks : list pstr) (doc : list (pstr * xv)) : option xv :=
   end.
 
 Section Machine.
+  (* false: every default-engine pattern parser has its own copy of the Pattern object (the library, since 38c6a1a);
+     true: the pre-fix variant - parsers re-target the shared object and read it again when they report an error *)
+  Variable shared_pat : bool.
   (* leaf conversions not spelled out (v1 flag, type name, value): every v1 conversion; default engine int/float/bool/str/... *)
   Variable conv0 : bool -> pstr -> xv -> cres.
   (* value dumped for a field value (v1 flag, value): the dump hook selected by the exact type *)
@@ -228,8 +233,8 @@ Section Machine.
     | t => if xty_eqb t (kind_ty k) then AmOk v else AmBadType
     end.
 
-  (* default engine: conversion of one field value.  `an obj` = name of the type the Pattern object obj points to NOW *)
-  Definition d_conv (an : nat -> pstr) (mt : vtable) (f : xfield) (v : xv) : vtable * cres :=
+  (* default engine: conversion of one field value.  `an obj k` = name of the type a ParseError of the position (obj, k) reports *)
+  Definition d_conv (an : nat -> dkind -> pstr) (mt : vtable) (f : xfield) (v : xv) : vtable * cres :=
     match xf_ty f with
     | FLeaf t => (mt, conv0 false t v)
     | FMoment k =>
@@ -249,7 +254,7 @@ Section Machine.
                 | _ => match x_ty v with
                        | XStr => match strp fmt k (x_txt v) with
                                  | Some w => COk w
-                                 | None => CErr (CEParse (an obj))
+                                 | None => CErr (CEParse (an obj k))
                                  end
                        | _ => CErr (CERaw (S "TypeError"))
                        end
@@ -257,7 +262,7 @@ Section Machine.
     end.
 
   (* default engine: the generated cls_fromdict loops over the document *)
-  Fixpoint d_loop (d : xcdef) (an : nat -> pstr) (doc : list (pstr * xv)) (kt : ktable) (mt : vtable)
+  Fixpoint d_loop (d : xcdef) (an : nat -> dkind -> pstr) (doc : list (pstr * xv)) (kt : ktable) (mt : vtable)
            (kw : list (pstr * xv)) : ktable * vtable * (herr + list (pstr * xv)) :=
     match doc with
     | [] => (kt, mt, inr kw)
@@ -338,6 +343,13 @@ Section Machine.
   Definition ann_name (ann : list (nat * dkind)) (obj : nat) : pstr :=
     match assoc_n obj ann with Some k => kind_name k | None => S "?" end.
 
+  (* the type a ParseError of position (obj, k) names, given the state of the annotation objects *)
+  Definition pat_view (ann : list (nat * dkind)) : nat -> dkind -> pstr :=
+    if shared_pat then (fun obj _ => ann_name ann obj) else (fun _ k => kind_name k).
+  (* the annotation objects after the load function of d has been generated *)
+  Definition gen_ann (d : xcdef) (ann : list (nat * dkind)) : list (nat * dkind) :=
+    if shared_pat then (if xc_v1 d then ann else retarget (xc_fields d) ann) else ann.
+
   Definition gen_load (d : xcdef) : option lgen :=
     if xc_v1 d then match chains_of d (xc_fields d) with
                     | Some cs => Some {| lg_keys := []; lg_chain := cs |}
@@ -355,7 +367,7 @@ Section Machine.
     let gen := match g_load g with
                | Some lg => Some (lg, h_ann s)
                | None => match gen_load d with
-                         | Some lg => Some (lg, if xc_v1 d then h_ann s else retarget (xc_fields d) (h_ann s))
+                         | Some lg => Some (lg, gen_ann d (h_ann s))
                          | None => None
                          end
                end in
@@ -367,7 +379,7 @@ Section Machine.
               h_ann := ann; h_memo := h_memo s |},
            v1_load d (lg_chain lg) doc)
         else
-          let r := d_loop d (ann_name ann) doc (lg_keys lg) (h_memo s) [] in
+          let r := d_loop d (pat_view ann) doc (lg_keys lg) (h_memo s) [] in
           let kt := fst (fst r) in let mt := snd (fst r) in
           ({| h_defs := h_defs s;
               h_gen := set_n c {| g_load := Some {| lg_keys := kt; lg_chain := lg_chain lg |}; g_dump := g_dump g |} (h_gen s);
@@ -422,7 +434,7 @@ Section Machine.
   (* ---- the cache-free reference: no table is read, Pattern objects name the type of their own position *)
   Definition own_name (d : xcdef) (obj : nat) : pstr :=
     ann_name (retarget (xc_fields d) []) obj.
-  Fixpoint d_ref (d : xcdef) (an : nat -> pstr) (doc : list (pstr * xv)) (kw : list (pstr * xv)) : herr + list (pstr * xv) :=
+  Fixpoint d_ref (d : xcdef) (an : nat -> dkind -> pstr) (doc : list (pstr * xv)) (kw : list (pstr * xv)) : herr + list (pstr * xv) :=
     match doc with
     | [] => inr kw
     | (k, v) :: r =>
@@ -440,7 +452,7 @@ Section Machine.
             end
         end
     end.
-  Definition pure_load (d : xcdef) (an : nat -> pstr) (doc : list (pstr * xv)) : hout :=
+  Definition pure_load (d : xcdef) (an : nat -> dkind -> pstr) (doc : list (pstr * xv)) : hout :=
     if xc_v1 d then match chains_of d (xc_fields d) with
                     | Some cs => v1_load d cs doc
                     | None => HErr HEIndex
@@ -454,7 +466,10 @@ Section Machine.
   Definition pure_hop (ds : list xcdef) (o : hop) : hout :=
     match o with
     | HDefine _ => HDone
-    | HLoad c doc => match find_def ds c with None => HErr HEUndef | Some d => pure_load d (own_name d) doc end
+    | HLoad c doc => match find_def ds c with
+                     | None => HErr HEUndef
+                     | Some d => pure_load d (if shared_pat then (fun obj _ => own_name d obj) else (fun _ k => kind_name k)) doc
+                     end
     | HDump c inst => match find_def ds c with None => HErr HEUndef | Some d => pure_dump d inst end
     end.
 End Machine.
